@@ -8,6 +8,7 @@ from .used_qubit_visitor import UsedQubitIndicesVisitor
 from .visitor import Visitor
 from jaqalpaq.error import JaqalError
 from jaqalpaq.core.block import BlockStatement, LoopStatement
+from jaqalpaq import _verif_trace
 
 
 class Trace:
@@ -118,6 +119,12 @@ class DiscoverSubcircuits(UsedQubitIndicesVisitor):
         return indices
 
     def visit_GateStatement(self, gate, context=None):
+        _verif_trace.emit(
+            "discover",
+            gate=gate.name,
+            open=self.current is not None,
+            closed=len(self.subcircuits),
+        )
         if gate.name == self.p_gate:
             # We allow for multiple prepare_all's in a row. But gates between those
             # prepare_all's do nothing. Notice also, we would not yet know what the
